@@ -64,6 +64,7 @@ fn main() {
             let r = match v["engine"].as_str().unwrap_or("") {
                 "kv" => engines::kv::replay(&v),
                 "cluster" => engines::cluster::replay_file(&v),
+                "pair" => engines::pair::replay(&v),
                 e => Err(format!("unknown engine {e}")),
             };
             match r {
@@ -93,6 +94,16 @@ fn run_check(prop: &str, tier: Tier) -> i32 {
         "C01" | "C02" | "C03" | "C04" | "C05" | "C20" => {
             let p: &'static str = match prop { "C01" => "C01", "C02" => "C02", "C03" => "C03", "C04" => "C04", "C05" => "C05", _ => "C20" };
             check.parts.extend(engines::cluster::run(p, tier));
+            if p == "C04" {
+                check.parts.extend(engines::kv::run("C04", tier, std::time::Instant::now()).into_iter().take(1));
+            }
+            check.parts.extend(engines::pair::run(p, tier, std::time::Instant::now()));
+        }
+        "C08" => {
+            check.parts.extend(engines::wire::run("C08", tier, started));
+        }
+        "C14" => {
+            check.parts.extend(engines::pair::run("C14", tier, started));
         }
         _ => {
             eprintln!("no check registered for {prop}");
